@@ -74,6 +74,10 @@ impl MatrixSpec {
                 if fancy && c == 0 && rng.chance(1, 2) {
                     continue; // sparse: zero cells may be omitted
                 }
+                if fancy && rng.chance(1, 12) {
+                    // the same cell listed twice: the later line is the one that counts
+                    s.push_str(&format!("{} {} {}\n", l, r, c.wrapping_add(1 + rng.below(50) as i16)));
+                }
                 if fancy && rng.chance(1, 10) {
                     s.push_str(&format!("  {}\t{}   {}  \n", l, r, c));
                 } else {
